@@ -76,6 +76,115 @@ def dispatch(ctx, rep, rule):
     rep.floor(rule, 17 + 17, "(17 accepting cells + TAG consts + rejected cells)")
 
 
+def dispatch_lengths(ctx, rep, rule):
+    """The dispatcher leaves the length of a supported value to its decoder: for every supported (class, tag) cell and every
+    contents length 0..20, an error the dispatcher raises itself is feasible only where the decoder of that cell has no
+    successful exit for that length either.  (A length limit placed in front of the dispatch and keyed on the tag number
+    alone refuses the INTEGERs, BOOLEANs .. that share the number with an application type.)"""
+    facts = ctx.facts
+    body = facts.body("snmp::value::SnmpValue::<'_>::from_ber")
+    if body is None:
+        rep.missing(rule, "SnmpValue::from_ber")
+        return
+    prov = flow.Prov(body)
+    cls_idx = {n: d for d, n in (flow.enum_variants(facts, "ber::BerClass") or {}).items()}
+    if len(cls_idx) != 4:
+        rep.missing(rule, "enum BerClass")
+        return
+    n = 0
+    for (cname, tag), (vname, dec) in sorted(DISPATCH.items()):
+        dbody = None
+        if dec:
+            for b in facts.body_list:
+                if b.impl_trait == "ber::BerDecoder" and b.name == "decode" and ("<%s as " % dec) in b.path:
+                    dbody = b
+        refused, accepted_by_decoder = [], {}
+        for L in range(0, 21):
+            def ev(t, cname=cname, tag=tag, L=L):
+                if _hdr_field(t, "constructed"):
+                    return 0
+                if t[0] == "discr" and _hdr_field(t[1], "class"):
+                    return cls_idx[cname]
+                if _hdr_field(t, "tag"):
+                    return tag
+                if _hdr_field(t, "length"):
+                    return L
+                return None
+            blocks, _ = cells.feasible(body, prov, ev)
+            tg = cells.tags(body, blocks)
+            own = sorted({x[2] for x in tg if x[0] == "agg" and x[1] == "error::SnmpError"})
+            if own:
+                refused.append((L, own))
+        n += 1
+        key = "primitive/%s/tag %d|dispatcher leaves the length to the decoder" % (cname, tag)
+        if not refused:
+            rep.ok(rule, key, "no error of its own for lengths 0..20", body.loc(), obligation=True)
+            continue
+        if len(refused) == 21:
+            rep.inconclusive(rule, key, "the dispatcher can refuse this supported cell whatever the length (%s): not decided here" % refused[0][1], body.loc())
+            continue
+        bad = []
+        for L, own in refused:
+            if dbody is None:
+                if L == 0:       # the exception values and NULL-like markers are well-formed with empty contents only
+                    bad.append(L)
+                continue
+            dprov = flow.Prov(dbody)
+            dblocks, _ = cells.feasible(dbody, dprov, lambda t, L=L: L if flow.field_path(t) == ("arg2", "length") else None)
+            oks = flow.blocks_assigning_return(dbody, lambda rv: rv["k"] == "agg" and rv.get("vname") == "Ok")
+            if set(oks) & set(dblocks):
+                bad.append(L)
+        rep.check(rule, key, not bad, "refuses only lengths the decoder refuses too",
+                  "SnmpValue::from_ber itself refuses %s/tag %d (%s) with contents of %s octets, which %s accepts: a limit in front of the "
+                  "dispatch that is not the decoder's" % (cname, tag, vname, bad[:6], dec or "the value"), body.loc(), obligation=True)
+    if n < 17:
+        rep.violation(rule, "floor-cells", "%d of 17 supported cells" % n)
+
+
+_CUTS = ("index", "get", "get_unchecked", "split_at", "split_first", "split_last", "trim_ascii", "trim_ascii_end", "trim_ascii_start", "strip_prefix",
+         "strip_suffix", "first_chunk", "last_chunk", "split", "splitn", "rsplit", "rsplitn", "take", "skip", "truncate", "trim_end_matches", "trim_matches",
+         "trim_start_matches", "position", "rposition", "filter", "take_while", "skip_while", "dedup", "retain")
+
+
+def py_values_raw(ctx, rep, rule):
+    """OCTET STRING, Opaque and ObjectDescriptor reach Python as the octets that were decoded: the bytes object is built
+    from the slice the value holds (`self.0`), not from a part of it (a stripped terminator, a trimmed blank)."""
+    facts = ctx.facts
+    n = 0
+    for b in facts.body_list:
+        if not (b.name == "into_pyobject" and b.impl_trait == "pyo3::IntoPyObject" and
+                any(("ber::%s" % x) in b.path for x in ("octetstring::SnmpOctetString", "opaque::SnmpOpaque", "objectdescriptor::SnmpObjectDescriptor"))):
+            continue
+        prov = flow.Prov(b)
+        calls = [blk for blk in b.calls() if (callee_path(blk.term) or "").endswith("PyBytes::new") and len(blk.term["args"]) == 2]
+        what = b.path.split(" as ")[0].lstrip("<&'a ").split("::")[-1].split("<")[0]
+        if not calls:
+            rep.inconclusive(rule, "%s|bytes object" % what, "no PyBytes::new call: how the value reaches Python is not recognised", b.loc())
+            continue
+        n += 1
+        for blk in calls:
+            t = prov.operand(blk.term["args"][1])
+            for _ in range(8):
+                if t[0] == "call" and len(t[2]) >= 1 and (t[1] or "").split("::")[-1] in ("as_ref", "deref", "borrow", "as_slice", "into", "from", "clone", "as_bytes"):
+                    t = t[2][0]
+                elif t[0] == "call" and (t[1] or "").split("::")[-1] == "index" and len(t[2]) == 2 and t[2][1][0] == "agg" and (t[2][1][1] or "").endswith("RangeFull"):
+                    t = t[2][0]
+                elif t[0] == "cast":
+                    t = t[1]
+                else:
+                    break
+            key = "%s|bytes object built from the decoded slice" % what
+            if flow.field_path(t) == ("arg1", "0"):
+                rep.ok(rule, key, "PyBytes::new(py, self.0)", b.loc(blk.term.get("line")), obligation=True)
+            elif flow.mentions(t, lambda x: x[0] == "call" and (x[1] or "").split("::")[-1] in _CUTS) and flow.mentions(t, lambda x: flow.field_path(x) == ("arg1", "0")):
+                rep.violation(rule, key, "the bytes object handed to Python is a part of the decoded contents (%s), not the contents: the caller reads "
+                              "a value the agent did not send" % flow.fmt(t)[:100], b.loc(blk.term.get("line")), obligation=True)
+            else:
+                rep.inconclusive(rule, key, "source of the bytes object not recognised: %s" % flow.fmt(t)[:80], b.loc(blk.term.get("line")))
+    if n < 3:
+        rep.violation(rule, "floor-bytes-values", "%d of the 3 conversions found" % n)
+
+
 def pair(ctx, rep, rule):
     """decode(a, &h): a and h are the two components of one BerHeader::from_ber result."""
     facts = ctx.facts
